@@ -30,8 +30,9 @@ func init() {
 				Rule: "(a) deterministic runs: buffer sizes 2..64 and a few large ones, streams whose number of distinct values is below, at and far above the size, every value repeated 1..4 times in interleaved order, Reset at random points; after EVERY Add: Count == exact number of distinct values while fewer than size distinct values have been added since creation/Reset, Len <= size, Count == Len * 2^j with j an integer that never decreases until Reset; after Reset: Len == 0, Count == 0 and the exact regime again. " +
 					"(b) statistical configurations (size, D): sizes 8, 16, 64 with D below, 10x and 100x the size using R = 4000 (40000 thorough) independent seeded counters each, sizes 4, 5, 6 with D = 48 and 600 using R = 200000 (larger R because the estimator is more skewed there), sizes 64..256 with enough distinct values for many halving rounds, and scripted streams that sit just above capacity with the zero value of the element type at the critical position (first Add after the buffer fills, first Add overall, back-to-back repeats), and streams counted after a Reset that followed a long run far above capacity; the fixed stream repeats every value 1..3 times, interleaved; |mean(Count) - D| <= 7 * sd/sqrt(R) + 0.002 * D. (c) natively seeded counters (the reseeding hook is not used: NewCounter's own seeding is part of what is monitored): 20 000..140 000 counters per configuration on one stream, mean test as above, and no lag L at which run r and run r+L agree at all of 8 checkpoints for 99 % of 300+ pairs (independence of repeated runs). (d) scripted coin flips (hook VerifSetSource): counters taken through up to 60 halving rounds in a few thousand Adds, deterministic clauses checked after every Add. Sizes 2 and 3 get the deterministic clauses only (estimator too heavy-tailed for a CLT-based tolerance). " +
 					"(e) buffers of 1025..3000 elements stopped at their first halving pass: the number of values that remain is Binomial(L, 1/2) exactly (L = values buffered before the pass); mean and variance over 16*size (48*size thorough) seeded runs are compared with L/2 and L/4 at 6.5 standard errors, which is less than one element. " +
+					"(f) one counter used for 2500 runs with Reset in between (sizes 8..64, 100..1000 distinct values, hook-seeded and natively seeded): the mean of Count over those runs against the true number, 7 standard errors + 0.2 %. " +
 					"All randomness derives from VERIF_SEED. distinct = hash(size, stream, seed) of deterministic runs + one per statistical configuration; non-trivial = the run went above capacity (at least one halving)",
-				Required:     []string{"deterministic_runs", "adds_checked", "exact_regime_checks", "halvings_observed", "resets", "statistical_configs", "statistical_runs", "runs_with_repeats_above_capacity", "resets_on_empty_buffer", "natively_seeded_runs", "scripted_coin_runs", "very_large_buffer_runs", "first_halving_configs"},
+				Required:     []string{"deterministic_runs", "adds_checked", "exact_regime_checks", "halvings_observed", "resets", "statistical_configs", "statistical_runs", "runs_with_repeats_above_capacity", "resets_on_empty_buffer", "natively_seeded_runs", "scripted_coin_runs", "very_large_buffer_runs", "first_halving_configs", "reused_counter_configs"},
 				Assumptions:  []string{"CLT tolerance: 7 sample standard errors + 0.2 % of D; measured skewness is reported in the evidence (|skew| * 343 / (6 sqrt(R)) stays below 1, so the normal tail 2.6e-12 is off by a small factor only)", "the hook distinct.VerifReseed only replaces the random source of a counter built by NewCounter"},
 				CoverPkgs:    []string{"github.com/creachadair/mds/distinct"},
 				CoverAnchors: []string{"distinct/distinct.go:NewCounter", "distinct/distinct.go:Add", "distinct/distinct.go:Count", "distinct/distinct.go:Len", "distinct/distinct.go:Reset"},
@@ -448,7 +449,61 @@ func c19firstHalving(c *fw.Ctx, size, runs, no int) {
 	}
 }
 
+// c19reused: one counter used for run after run with Reset in between. Reset
+// restores the exact regime, and the runs that follow must be as good as runs
+// on fresh counters: their mean converges to the true number of distinct
+// values (it would not if the runs shared their coin flips). Odd-numbered
+// configurations leave the counter natively seeded.
+func c19reused(c *fw.Ctx, no int) {
+	size := []int{8, 16, 32, 64}[no%4]
+	D := []int{100, 400, 640, 1000}[(no/4)%4]
+	R := 2500
+	ctr := distinct.NewCounter[int](size)
+	native := no%2 == 1
+	if !native {
+		distinct.VerifReseed(ctr, c19seed(c.Seed, uint64(no), 0x5e7))
+	}
+	var sum, sum2 float64
+	for run := 0; run < R; run++ {
+		base := run * 1000003
+		for v := 0; v < D; v++ {
+			ctr.Add(base + v)
+			if v%3 == 0 {
+				ctr.Add(base + v/2)
+			}
+		}
+		x := float64(ctr.Count())
+		sum += x
+		sum2 += x * x
+		ctr.Reset()
+		if ctr.Len() != 0 || ctr.Count() != 0 {
+			c.Fail(map[string]any{"size": size}, "after Reset: Len=%d Count=%d", ctr.Len(), ctr.Count())
+			return
+		}
+		if run%64 == 0 {
+			c.Step()
+		}
+	}
+	mean := sum / float64(R)
+	variance := max(sum2/float64(R)-mean*mean, 0)
+	se := math.Sqrt(variance / float64(R))
+	tol := 7*se + 0.002*float64(D)
+	data := map[string]any{"size": size, "distinct_values": D, "runs_separated_by_Reset": R, "natively_seeded": native, "mean": mean, "standard_error": se}
+	if math.Abs(mean-float64(D)) > tol {
+		c.Fail(data, "one counter (size %d) used for %d runs with Reset in between, %d distinct values each: the mean of Count is %.2f, which is %.2f away from %d; 7 standard errors + 0.2%% allow %.2f", size, R, D, mean, mean-float64(D), D, tol)
+		return
+	}
+	c.Add("reused_counter_configs", 1)
+	c.Add("runs_on_a_reused_counter", int64(R))
+}
+
 func runC19(c *fw.Ctx) {
+	if c.Begin(1<<22 + 200 + c.Block) {
+		ok, pv, stack := fw.Try(func() { c19reused(c, c.Block) })
+		if !ok {
+			c.FailKind("panic", map[string]any{"phase": "reused counter"}, "panic: %v\n%s", pv, stack)
+		}
+	}
 	if c.Flavour == "plain" && c.Begin(1<<22+100+c.Block) {
 		size := []int{1025, 1100, 1200, 1300, 1500, 1600, 1800, 2049, 2100, 2200, 2300, 2500, 2600, 2800, 3000, 1030}[c.Block%16]
 		ok, pv, stack := fw.Try(func() { c19firstHalving(c, size, c.Pick(16, 48)*size, c.Block) })
